@@ -138,7 +138,7 @@ fn run_codegen(req: &Value, tree: &Arc<mos_core::parser::ParseTree>, greedy: boo
         l.passes.push(json!({"i": info.pass_idx, "d": format!("{:016x}", info.digest), "e": format!("{:016x}", info.errors_digest),
             "u": format!("{:016x}", info.undefined_digest), "s": format!("{:016x}", info.symbols_digest),
             "g": format!("{:016x}", info.segments_digest), "ne": info.errors, "nu": info.undefined, "nodes": info.node_count,
-            "nseg": info.segment_count, "added": info.symbols_added}));
+            "nseg": info.segment_count, "added": info.symbols_added, "changed": info.changed}));
         if let Some(j) = l.digests.iter().position(|d| *d == info.digest) {
             if l.repeat.is_none() {
                 l.repeat = Some(json!({"first": j, "again": info.pass_idx}));
